@@ -64,12 +64,14 @@ theorem trio_collect_exact {s s' : Trio.St} (hc : Trio.collect s = .ok s') (hi :
 
 /-- what one successful vault transaction does to the ledgers: it charges `pf` (only a flash loan —
     direct or through the router — charges anything, and then exactly `⌊share·loan⌋`), burns `bf`
-    (supply drops by exactly `bf`), and moves `c` from the pending ledger to the collector -/
+    (supply drops by exactly `bf`), and moves `c` from the pending ledger to the collector.
+    `op.core` = the message itself without stray coins that may be attached to it (`Op.attach`): the
+    statement covers every message sent WITH coins it does not ask for. -/
 theorem vault_step_ledger {s s' : Vault.St} (op : Vault.Op) (hI : Vault.Inv s)
     (h : Vault.step s op = some s') :
     ∃ pf bf c, Vault.LedgerStep s s' pf bf c ∧
       (pf ≠ 0 ∨ bf ≠ 0 →
-        ∃ amount, (∃ cb, op = .loan amount cb) ∨ (∃ i p, op = .routerLoan i amount p)) :=
+        ∃ amount, (∃ cb, op.core = .loan amount cb) ∨ (∃ i p, op.core = .routerLoan i amount p)) :=
   Vault.step_ledger op hI h
 
 /-- pending = charged − transferred (`allTime` is the sum of all charges, `sent` the ghost sum of
@@ -124,6 +126,54 @@ theorem vault_collect_to_collector_only {s s' : Vault.St} (h : Vault.collect s =
     · injection h with h; subst h
       simp only [Vault.collectRes]
       exact Vault.getN_setN_ne _ _ _ _ (by omega)
+
+/-- **Stray coins never change the ledgers**: coins attached to any message of the vault or the router
+    that does not ask for them (the vault asset's own denom or an unrelated one, any sender, any amount)
+    arrive before the handler runs and leave pending fees, the all-time and burned counters, the ghost
+    sum of collector transfers, the asset's total supply, the fee configuration and the toggles as they
+    were; the message then runs from that state `s1` exactly as without coins. -/
+theorem vault_stray_coins_keep_ledgers {s s' : Vault.St} {who sel n : Nat} {op : Vault.Op}
+    (hI : Vault.Inv s) (h : Vault.step s (.attach who sel n op) = some s') :
+    ∃ s1, Vault.step s1 op = some s' ∧ s1.pend = s.pend ∧ s1.allTime = s.allTime ∧ s1.burned = s.burned ∧
+      s1.sent = s.sent ∧ s1.assetSupply = s.assetSupply ∧ s1.fees = s.fees ∧ s.bal ≤ s1.bal ∧
+      Vault.getN s1.ab 4 = Vault.getN s.ab 4 := by
+  obtain ⟨dst, s1, _, _, ha, hs⟩ := Vault.attach_parts h
+  have A := Vault.arrive_spec hI ha
+  refine ⟨s1, hs, A.pend, A.allTime, A.burned, A.sent, A.assetSupply, A.fees, A.balGe, ?_⟩
+  -- the collector (account 4) is neither a sender nor a receiving contract
+  by_cases hsel : sel = 0
+  · subst hsel
+    unfold Vault.arrive at ha
+    split at ha
+    · cases ha
+    rw [if_pos rfl] at ha
+    split at ha
+    · cases ha
+    split at ha
+    · obtain ⟨rfl, _⟩ := Vault.payIn_spec hI.abLen (by omega) ha
+      exact Vault.getN_setN_ne _ _ _ _ (by omega)
+    · obtain ⟨_, _, _, _, hab⟩ := Vault.move_spec hI.abLen (by omega) (by omega) ha
+      rw [hab, Vault.getN_setN_ne _ _ _ _ (by omega), Vault.getN_setN_ne _ _ _ _ (by omega)]
+  · obtain ⟨rfl, _⟩ := Vault.arrive_junk hsel ha
+    rfl
+
+/-- The unrelated denom is never paid out by the vault or the router: over ANY history (stray coins
+    attached to any messages, loans with arbitrary callbacks and payloads) its total is conserved, no
+    account other than the vault (entry 7) and the router (entry 5) ever gains any, and those two never
+    lose any — stray coins of a foreign denom stay on the contract they were sent to. -/
+theorem vault_foreign_coins_stay {s : Vault.St} (hI : Vault.Inv s) (hj : s.jb.length = 8)
+    (ops : List Vault.Op) :
+    Vault.JRel s (Vault.reach s ops) := by
+  induction ops generalizing s with
+  | nil => exact Vault.JRel.of_eq rfl
+  | cons op ops ih =>
+    simp only [Vault.reach, List.foldl_cons]
+    unfold Vault.apply
+    cases h : Vault.step s op with
+    | none => exact ih hI hj
+    | some s1 =>
+      have r := Vault.step_jrel op hI hj h
+      exact r.trans (ih (C05.price_step op hI h).1 (by rw [r.len]; exact hj))
 
 /-- non-vacuity: a concrete vault history with a loan, a collection and a second loan -/
 example :
